@@ -169,6 +169,17 @@ def all_idents():
     return model.identities()
 
 
+_DEC = None
+
+
+def all_idents_safe():
+    """identities whose definition the interpreter can walk (cached)"""
+    global _DEC
+    if _DEC is None:
+        _DEC = decodable_idents()
+    return _DEC
+
+
 def decodable_idents():
     out = []
     for i in all_idents():
@@ -181,7 +192,7 @@ def decodable_idents():
 
 
 def any_message(profile="mixed", idents=None):
-    ids = idents or decodable_idents()
+    ids = idents or all_idents_safe()
     return st.sampled_from(ids).flatmap(lambda i: messages(i, profile))
 
 
